@@ -47,7 +47,7 @@ var Metas = map[string]Meta{
 		Design:    "DESIGN.md §4 C10",
 	},
 	"C20": {
-		Text:      "Matcher: for specs of a bounded crontab grammar (every item form per field, incl. steps, L, dL, d#n; parsed by the real cronParseSpec inside the executor) the real cronSpecMask.IsRunAt runs on top of the real time.Time methods at a symbolic instant and is compared with a branch-free reference over civil fields. Minute/hour fields: any instant 2000..2100 in UTC and two fixed-offset zones. Hour and date fields: the civil month of the job's zone is enumerated (quick 48 months 2023-26; thorough 100 incl. 2000-02, 2100-02, 2038-01, 1999-12), the instant inside it is symbolic; zones UTC and Europe/Berlin (daylight saving, zone data embedded and parsed by the real time.LoadLocationFromTZData), thorough adds +05:30 and -08:00, lists of two and the day OR weekday rule. Scheduler: the spool for the coming minute after a symbolic history of AddJob/EnableJob/DisableJob/RemoveJob (queued exactly once iff present, enabled and matching), and one tick of the real timer callback under a clock that stands still, creeps or jumps a minute between any two of its reads (timer re-armed, at most one run per job, none when disabled). Four defects found here are fixed.",
+		Text:      "Matcher: for specs of a bounded crontab grammar (every item form per field, incl. steps, L, dL, d#n; parsed by the real cronParseSpec inside the executor) the real cronSpecMask.IsRunAt runs on top of the real time.Time methods at a symbolic instant and is compared with a branch-free reference over civil fields. Minute/hour fields: any instant 2000..2100 in UTC and two fixed-offset zones. Hour and date fields: the civil month of the job's zone is enumerated (2000-02, 2100-02, 2038-01, 1999-12 and then consecutive months from 2023-01; quick 48 months in all, thorough 64), the instant inside it is symbolic; zones UTC and Europe/Berlin (daylight saving, zone data embedded and parsed by the real time.LoadLocationFromTZData); thorough adds lists of two and the day OR weekday rule. Scheduler: the spool for the coming minute after a symbolic history of AddJob/EnableJob/DisableJob/RemoveJob (queued exactly once iff present, enabled and matching), and one tick of the real timer callback under a clock that stands still, creeps or jumps a minute between any two of its reads (timer re-armed, at most one run per job, none when disabled). Four defects found here are fixed.",
 		Note:      bmcNote + " time.absDate is answered by a month-table summary when the path condition confines its argument to <=5 months (engine/timesum.go; validated by a unit test against the time package and by the native witness replay); solver: z3 with a 400 ms budget per query, then cvc5 int-blasting. Native replay of the tick entry builds node/cron.go with its clock and timer calls redirected by source instrumentation. Schedule/JobSchedule (loops over the same matcher) and zones with daylight saving other than Europe/Berlin are outside; the reference uses the time package for the civil fields.",
 		Technique: "symbolic execution of go/ssa (incl. stdlib time) + SMT: QF_BV with z3, int-blasted BV with cvc5; differential against a reference; native replay",
 		Design:    "DESIGN.md §4 C20",
